@@ -393,6 +393,98 @@ def stream_operators(ctx: Ctx) -> Stream:
 	return st
 
 
+def generic_attr_case(sess: Session, src: str) -> tuple[Any, list[str], list[str]] | None:
+	"""one program of generic_deep_block -> one `gattr` line per read `v = o.attr` of an instance built in the entry function"""
+	tree = ast.parse(src)
+	tvars = {t.id for n in tree.body if isinstance(n, ast.Assign) and isinstance(n.value, ast.Call) and isinstance(n.value.func, ast.Name)
+		and n.value.func.id == 'TypeVar' for t in n.targets if isinstance(t, ast.Name)}
+
+	def ty(n: ast.expr) -> str:
+		if isinstance(n, ast.Name):
+			if n.id in tvars:
+				return f'( tvar {n.id} )'
+			if n.id in ('int', 'float', 'bool', 'str'):
+				return n.id
+		if isinstance(n, ast.Subscript) and isinstance(n.value, ast.Name) and n.value.id in ('list', 'dict', 'tuple'):
+			args = n.slice.elts if isinstance(n.slice, ast.Tuple) else [n.slice]
+			return f"( {n.value.id} {' '.join(ty(a) for a in args)} )"
+		raise X.Unsupported(f'annotation {ast.unparse(n)}')
+
+	def val_ty(n: ast.expr) -> str:
+		if isinstance(n, ast.Constant) and type(n.value) in (int, float, bool, str):
+			return type(n.value).__name__
+		if isinstance(n, ast.Name) and n.id in ('a', 's', 'b', 'p'):
+			return {'a': 'int', 's': 'str', 'b': 'float', 'p': 'bool'}[n.id]
+		if isinstance(n, ast.List) and n.elts:
+			return f'( list {val_ty(n.elts[0])} )'
+		raise X.Unsupported(f'argument {ast.unparse(n)}')
+	classes: dict[str, tuple[str, dict[str, str]]] = {}
+	for c in tree.body:
+		if isinstance(c, ast.ClassDef) and len(c.bases) == 1 and isinstance(c.bases[0], ast.Subscript) and ast.unparse(c.bases[0].value) == 'Generic':
+			ps = c.bases[0].slice.elts if isinstance(c.bases[0].slice, ast.Tuple) else [c.bases[0].slice]
+			schema = f"( cls {c.name} {' '.join(ty(q) for q in ps)} )"
+			classes[c.name] = (schema, {st.target.id: ty(st.annotation) for st in c.body if isinstance(st, ast.AnnAssign) and isinstance(st.target, ast.Name)})
+	fn = next(n for n in tree.body if isinstance(n, ast.FunctionDef))
+	with cpu_budget(TRANP_BUDGET_S):
+		refl, stmts = sess.statements(src)
+	if len(stmts) != len(fn.body) or not all(isinstance(st, ast.Assign) for st in fn.body):
+		return None
+	inst: dict[str, tuple[str, str]] = {}
+	ops: list[str] = []
+	real: list[str] = []
+	hist: Counter[str] = Counter()
+	for a, st in zip(fn.body, stmts):
+		tgt, v = a.targets[0], a.value  # type: ignore[attr-defined]
+		if not isinstance(tgt, ast.Name):
+			continue
+		if isinstance(v, ast.Call) and isinstance(v.func, ast.Name) and v.func.id in classes and not v.keywords:
+			inst[tgt.id] = (v.func.id, f"( cls {v.func.id} {' '.join(val_ty(x) for x in v.args)} )")
+			continue
+		if isinstance(v, ast.Attribute) and isinstance(v.value, ast.Name) and v.value.id in inst and v.attr in classes[inst[v.value.id][0]][1]:
+			cname, actual = inst[v.value.id]
+			schema, attrs = classes[cname]
+			r = real_type(refl, st.value)
+			ops.append(f'gattr\t{schema}\t{attrs[v.attr]}\t{actual}')
+			real.append(r)
+			hist[v.attr] += 1
+	if not ops:
+		return None
+	return {'program': src, 'hist': dict(hist)}, ops, real
+
+
+def stream_generic_attrs(ctx: Ctx) -> Stream:
+	"""attributes of user generic classes with nested type variables, read through several instantiations in one session"""
+	from harness import c03_progs
+	rng = ctx.sub_rng('infer-generic-attrs')
+	cases: list[tuple[Any, list[str], list[str]]] = []
+	skipped = 0
+	sess = Session(ctx)
+	hist: Counter[str] = Counter()
+	dl = Deadline(ctx, 15, 200)
+	for i in range(ctx.scale(10, 150)):
+		if i >= 3 and dl.over():
+			break
+		g = c03_progs.ProgGen(random.Random(rng.random()))
+		d, b = g.generic_deep_block()
+		src = 'from typing import Generic, TypeVar\n' + '\n'.join(d) + '\n\n\ndef main(a: int, p: bool, s: str, b: float) -> None:\n' + '\n'.join(b) + '\n'
+		try:
+			case = generic_attr_case(sess, src)
+		except (Exception, CaseTimeout):  # noqa: BLE001 - a program tranp cannot load / a form outside the driver's vocabulary: not a case
+			case = None
+		if case is None:
+			skipped += 1
+			continue
+		desc, ops, real = case
+		hist.update(desc['hist'])
+		cases.append((desc, ['new', *ops] if not cases else ops, ['ok', *real] if not cases else real))
+	st = common.correspond('infer-generic-attrs', cases, 'infer')
+	st.histogram = dict(hist)
+	st.histogram['cut-by-deadline'] = dl.cut
+	st.note = ('generated generic classes over two type variables with attributes mentioning them up to three levels deep, instantiated two or three times with '
+		f'different arguments in ONE session, the attributes read through every instance in a random interleaved order: real type_of(read) vs model propOf (templates.Class.prop over the TemplateManipulator port); skipped programs: {skipped}')
+	return st
+
+
 SPREAD_SOURCES = ['xs', 'ys', 'ss', 'xss', 'd', 'dd', 't', 'o', 'ol', 'a', 's', 'd.keys()', 'd.values()', 'd.items()', 'dd.values()', 'range(a)', 'reversed(xs)', 'enumerate(ss)',
 	'[a, c]', '[a, e]', '(a, s)', '{s: a}', 'xss[0]', 'dd[s]', 'xs.copy()', '[z0 for z0 in ys]', 's.split()', 'xs if p else ys', 'on', 'oln', 'odn', 'od', 'otn', 'zz']
 
@@ -427,8 +519,39 @@ def stream_spread(ctx: Ctx) -> Stream:
 				continue
 			r = real_type(refl, sp)
 			cases.append(({'expr': e, 'real': r}, ['new', f'spread\t{envx}\t{sx}'] if not cases else [f'spread\t{envx}\t{sx}'], ['ok', r] if not cases else [r]))
+	# whole literals mixing spread and plain items: how on_list combines the spread element types with the other items
+	import rogw.tranp.syntax.node.definition as defs
+	lits: list[str] = []
+	for _ in range(ctx.scale(40, 400)):
+		items = []
+		for _ in range(rng.randint(1, 3)):
+			g = X.Gen(rng, X.BASE_ENV, 'infer')
+			if rng.random() < 0.6:
+				items.append('*' + (rng.choice(SPREAD_SOURCES[:26]) if rng.random() < 0.6 else g.expr(('list', g.pick_ty(1)), rng.randint(0, 1)).at(X.P_ATOM)))
+			else:
+				items.append(g.expr(g.pick_ty(1), rng.randint(0, 2)).text)
+		lits.append('[' + ', '.join(items) + ']')
+	n_lit = 0
+	for lo in range(0, len(lits), 20):
+		chunk = lits[lo:lo + 20]
+		src = X.header(X.BASE_ENV) + ''.join(f'\tv{i} = {e}\n' for i, e in enumerate(chunk))
+		try:
+			with cpu_budget(TRANP_BUDGET_S):
+				refl, stmts = sess.statements(src)
+			assert len(stmts) == len(chunk)
+		except (Exception, CaseTimeout):  # noqa: BLE001 - an unparsable chunk is not a case
+			continue
+		for e, st in zip(chunk, stmts):
+			try:
+				sx = '( ' + ' '.join(f'( star {X.node_sexp(v.expression)} )' if isinstance(v, defs.Spread) else X.node_sexp(v) for v in st.value.values) + ' )'
+			except Exception:  # noqa: BLE001 - X.Unsupported / not a list literal
+				continue
+			r = real_type(refl, st.value)
+			n_lit += 1
+			cases.append(({'expr': e, 'real': r}, ['new', f'listspread\t{envx}\t{sx}'] if not cases else [f'listspread\t{envx}\t{sx}'], ['ok', r] if not cases else [r]))
 	st = common.correspond('infer-spread', cases, 'infer', classify=lambda d: d['real'][3:].split('<')[0] if d['real'].startswith('ok ') else d['real'])
-	st.note = 'the Spread node of `v = [*e]` in a typed function: real type_of(spread node) vs model onSpread(infer e)'
+	st.note = (f'the Spread node of `v = [*e]` in a typed function: real type_of(spread node) vs model onSpread(infer e); then {n_lit} whole literals mixing spread and '
+		'plain items `[*e1, x, *e2]`: real type_of(list node) vs model onListSpread')
 	return st
 
 
@@ -791,6 +914,62 @@ def search_typed_programs(ctx: Ctx) -> SearchResult:
 	return res
 
 
+def search_order(ctx: Ctx) -> SearchResult:
+	"""The history law on the real code, without CPython: the type of every expression of a program does not depend on the ORDER in which
+	the expressions are queried, nor on the session — session A answers the sites first to last, session B (another App) last to first;
+	both sessions are reused for all programs (so each also carries the history of the earlier programs). Programs: the typed
+	whole-program generator (generic classes instantiated with different arguments, user operators, optionals, …)."""
+	from harness import c03_progs
+	from harness import c03_search as S
+	rng = ctx.sub_rng('search-order')
+	res = SearchResult('query-order / session independence of type_of on typed whole programs (two sessions, opposite query orders)')
+	sess_a, sess_b = Session(ctx), Session(ctx)
+	dl = Deadline(ctx, 25, 300)
+	seen: set[str] = set()
+	for pi in range(ctx.scale(4, 40)):
+		if pi >= 2 and dl.over():
+			break
+		src, _, _, _ = c03_progs.generate(random.Random(rng.random()), allow_hetero=False)
+		seen.add(src)
+		answers: list[dict[Any, str]] = []
+		try:
+			with cpu_budget(2 * TRANP_BUDGET_S):
+				for sess, rev in ((sess_a, False), (sess_b, True)):
+					refl, mod = sess.module(src)
+					sites = sorted(S.expression_nodes(mod).items(), reverse=rev)
+					ans: dict[Any, str] = {}
+					for span, cands in sites:
+						node = S.pick(cands, 'expr')
+						try:
+							ans[span] = 'ok ' + refl.type_of(node).pretty
+						except Exception as e:  # noqa: BLE001
+							ans[span] = exc_enum(e)
+					answers.append(ans)
+		except CaseTimeout as e:
+			res.findings.append(Finding(key='timeout:inference', what=f'loading / typing a generated program used {e}', replay={'program': src}))
+			continue
+		except Exception as e:  # noqa: BLE001 - the generator emits programs CPython runs and tranp loads (search_typed_programs reports a load failure)
+			res.histogram[f'skipped:{exc_enum(e)}'] = res.histogram.get(f'skipped:{exc_enum(e)}', 0) + 1
+			continue
+		res.cases += 1
+		a, b = answers
+		res.histogram['sites'] = res.histogram.get('sites', 0) + len(a)
+		lines = src.split('\n')
+		for span in sorted(a):
+			if a[span] != b.get(span):
+				l0, c0, l1, c1 = span
+				text = lines[l0 - 1][c0:c1] if l0 == l1 else lines[l0 - 1][c0:]
+				res.findings.append(Finding(key='order:type_of-depends-on-query-order',
+					what=f'`{text}` (line {l0}) is typed {a[span]} when the sites are queried first to last, {b.get(span)} when queried last to first in another session',
+					replay={'program': src, 'span': list(span), 'forward': a[span], 'backward': b.get(span)}))
+				break
+		if len(res.samples) < 2:
+			res.samples.append({'program': src[:600], 'sites': len(a)})
+	res.distinct = len(seen)
+	res.histogram['cut-by-deadline'] = dl.cut
+	return res
+
+
 STATEMENTS: dict[str, str] = {
 	'dunder': 'every scalar binary-operator row (class, dunder, argument type) -> return type of the table generated from classes.py states CPython\'s result type (all operand values; 56 rows today, decided over the whole table)',
 	'dunder_unary': 'the __neg__/__pos__ rows state CPython\'s result type',
@@ -817,8 +996,9 @@ STATEMENTS: dict[str, str] = {
 	'user_operator_step / user_chain_type': 'a flat chain x op1 y op2 z … over instances of user classes, every step within the decidable form (directOk) of the hypotheses above: each_binary_operator (left to right, the previous RESULT as receiver) answers the type CPython\'s left-nested evaluation dispatches to (induction on the chain)',
 	'user_operator_repaired': 'on the model of try_operation with proposed/C03-operator-operand-indirect-subclass.diff applied (all ancestors of the operand compared) the FULL sentence user_operator_statement holds: an operand of any descendant class is typed by the left operand\'s method',
 	'shape_operators': 'BOp.arith / BOp.selects of the model are exactly the literal operator lists of Operations.arthmetical (accessible.py) and of try_operation (traits.py), read from the source by translate/gen_infer_shape.py on every run, for every operator token; the translator pins the statement sequence of try_operation and each_binary_operator (another shape = broken tie)',
-	'shape_attr_indexes': 'the attrs positions the handlers read (on_spread 0, on_indexer 0 / 1, IteratorTrait.iterates 0 — generated from the source) are the ones onSpread / onIndex use',
+	'shape_attr_indexes': 'the attrs positions the handlers read (on_spread 0, on_indexer 0 / 1, on_dict 1, IteratorTrait.iterates 0 — generated from the source; no other handler of ProceduralResolver indexes attrs by a constant) are the ones onSpread / onIndex / onDict use',
 	'handlers_accounted': 'every on_… handler ProceduralResolver defines (68 today; list generated from reflections.py on every run) has an arm of infer (32), is modelled beside it (on_spread, on_lambda) or is listed as outside the Lean model (34: declarations / statements — tied through the decl / for ops of stream infer-programs —, type annotations, arguments, imports, class / this / super references); a handler added, removed or renamed breaks the theorem',
+	'generic_attr_partial': 'an attribute of a generic class read on an instance (propOf = templates.Class.prop over the TemplateManipulator port, a pure function of declaration and receiver: no answer can depend on an earlier one) is the declared type with every class type variable replaced by the receiver\'s argument — proved for the nine declared shapes (variables up to three levels deep) × 5 × 5 arguments the generators build; generic_attr_statement (every declared type) is not proved',
 	'spread_items / sound_spread': 'on_spread (first type argument) equals the loop-variable type iterates answers for a list, a dict (keys) and Iterator<T> sources, for EVERY element type; hence the items CPython spreads conform to it (through sound_iter)',
 	'spread_tuple_counterexample': 'known finding spread-first-type-argument: for t = (1, "a") : tuple[int, str] on_spread answers int, CPython spreads a str too',
 	'list_literal_counterexample': 'known finding list-literal-class-dedup: [[None], [1]] is typed list<list<int>> (outside Core)',
@@ -834,9 +1014,9 @@ PARTIAL = {
 	'proved': 'int/float/bool/str, list[T], dict[K,V], tuple[...], optionals (as denotation of a Union), stub generics with their arguments (list/dict/str methods, len/abs/min/max/int/float/bool/str/list/range/reversed/enumerate), '
 		'literals, variables, unary/binary operators, comparisons, and/or/not, ternary, subscripts, slices, groups, list/dict comprehensions: soundness and totality on the model, by induction on expressions; '
 		'session independence for all expressions; template substitution of list.pop for all element types',
-	'correspondence_only': 'that the model IS the code: ProceduralResolver handlers, try_operation, TemplateManipulator path matching (stream infer, shared sessions = history), try_operation / each_binary_operator on user classes (stream infer-operators), on_spread (stream infer-spread), member lookup through the inheritance chain, on_relay, constructors, IteratorTrait, declaration typing of whole function bodies (stream infer-programs); CPython semantics of the core (stream pytype)',
+	'correspondence_only': 'that the model IS the code: ProceduralResolver handlers, try_operation, TemplateManipulator path matching (stream infer, shared sessions = history), try_operation / each_binary_operator on user classes (stream infer-operators), on_spread / on_list over spread items (stream infer-spread), templates.Class.prop for attributes of user generic classes (stream infer-generic-attrs), member lookup through the inheritance chain, on_relay, constructors, IteratorTrait, declaration typing of whole function bodies (stream infer-programs); CPython semantics of the core (stream pytype)',
 	'modelled_separately': 'operators on instances of user classes and spread items are modelled beside the expression model (Model/InferOps.lean: foldBinAny, onSpread; streams infer-operators, infer-spread), not as constructors of Expr: sound_conf does not range over them, user_operator_* / user_chain_type / spread_* do',
-	'search_only': 'that the class-scope visibility rule equals CPython\'s scoping (LEGB) — the Lean side states the rule on C08\'s Scope model and checks it on the nested-class program, the equality with CPython is exhibited by the recorder search (shadowing through nested classes); diamond-shaped hierarchies (chainOf is the depth-first walk of the code, not C3), Enum, user generic classes and functions incl. attributes typed by a type variable read on descendants (generic_chain_block; two known findings for METHODS there) (the template port is proved for stub methods; the position rule of 68f934e is checked on examples), nested classes, imports, resolve_unknown laziness, while/try/with, augmented and attribute assignments',
+	'search_only': 'that the class-scope visibility rule equals CPython\'s scoping (LEGB) — the Lean side states the rule on C08\'s Scope model and checks it on the nested-class program, the equality with CPython is exhibited by the recorder search (shadowing through nested classes); diamond-shaped hierarchies (chainOf is the depth-first walk of the code, not C3), Enum, user generic FUNCTIONS and methods, attributes typed by a type variable read on DESCENDANTS of a generic class (attributes read on an instance of the generic class itself: stream infer-generic-attrs + generic_attr_partial; query-order / session independence of every answer: search_order) (generic_chain_block; two known findings for METHODS there) (the template port is proved for stub methods; the position rule of 68f934e is checked on examples), nested classes, imports, resolve_unknown laziness, while/try/with, augmented and attribute assignments',
 	'assumed_of_callees (sound_lambda_param)': 'a callee applies a callback declared Callable[[A...], R] to values of the types A (hypothesis ArgsConf; the typing obligation of the callee body, exhibited by the recorder search which observes the parameters inside lambda bodies); discharged for immediate calls',
 	'assumed_of_user_code (user operators)': 'pyUserOpTy: an operator method returns a value of its declared type, and no class declares a REFLECTED method for class operands with another result type than the forward method (CPython asks a subclass operand first only through a reflected method); hierarchies are tree-shaped',
 	'assumed_of_user_code (WorldConf)': 'constructor / method / property / class-variable / __next__ results conform to their DECLARED types (each method body\'s own typing obligation; method bodies are typed statement by statement by sound_decl / sound_conf but not executed by the model)',
@@ -869,9 +1049,9 @@ def run(ctx: Ctx) -> int:
 			translate_ok, translate_msg = False, (translate_msg + '; ' if translate_msg else '') + f'{gen.__name__}: {type(e).__name__}: {str(e)[:600]}'
 	proof = common.prove(ctx, PROP, leanchecker=ctx.thorough)
 	with ctx.timed('correspondence'):
-		streams = [stream_infer(ctx), stream_programs(ctx), stream_operators(ctx), stream_spread(ctx), stream_pytype(ctx)]
+		streams = [stream_infer(ctx), stream_programs(ctx), stream_operators(ctx), stream_generic_attrs(ctx), stream_spread(ctx), stream_pytype(ctx)]
 	with ctx.timed('search'):
-		searches = [search_witnesses(ctx), search_exprs(ctx), search_programs(ctx), search_typed_programs(ctx)]
+		searches = [search_witnesses(ctx), search_exprs(ctx), search_programs(ctx), search_typed_programs(ctx), search_order(ctx)]
 	# findings outside the understood failing-input classes first (finish prints at most five VIOLATION lines)
 	from harness.c03_search import UNDERSTOOD
 	for sr in searches:
